@@ -123,7 +123,12 @@ def aged_case(prop):
         script = draw(st.lists(step_strategy(nd, nvdim, dtype == "float", bool(subs)), min_size=1, max_size=5))
         return {"prop": prop, "g": g, "subs": subs, "nvdim": nvdim, "vdims": draw(gen.vdims_strategy(nvdim)),
                 "perm": list(draw(st.permutations(range(max(nd, nvdim))))), "dtype": dtype,
-                "seed": draw(st.integers(0, 2**31)), "mask": draw(gen.mask_spec(nd)),
+                "seed": draw(st.integers(0, 2**31)),
+                "mask": ["all"] if draw(st.booleans()) else draw(gen.mask_spec(nd)),
+                # the writes go to the object itself, or to an object derived from it (then the object must not change)
+                "derive": draw(st.sampled_from([None, None, None, "neg", "mul", "real", "conjugate", "component", "diff",
+                                                "laplace", "plane", "box", "pad", "resample", "rot-copy", "norm",
+                                                "orientation", "abs", "stack", "h5"])),
                 "unit": draw(st.sampled_from(gen.FIELD_UNITS)), "bc0": draw(st.integers(0, 7)),
                 "script": script, "obs_seed": draw(st.integers(0, 2**31)),
                 "final_warm": draw(st.booleans())}
@@ -166,8 +171,11 @@ def build_initial(case):
         perm = [p for p in case["perm"] if p < 3]
         kw["vdim_mapping"] = {labels[perm[0]]: dims[0], labels[perm[1]]: dims[1], labels[perm[2]]: None}
     dt = {"complex": np.complex128, "int": np.int64}.get(case["dtype"])
+    # "all valid" is given the way most users give it: not at all (valid=True), so that "no mask so far" shortcuts
+    # are exercised before a mask is written in place
+    valid = True if case["mask"] == ["all"] else gen.make_mask(case["mask"], n)
     return df.Field(mesh, nvdim=k, value=_data(case["seed"], (*n, k), case["dtype"]), vdims=case["vdims"], dtype=dt,
-                    unit=case["unit"], valid=gen.make_mask(case["mask"], n), **kw)
+                    unit=case["unit"], valid=valid, **kw)
 
 
 def apply_step(f, step, case):
@@ -360,8 +368,8 @@ def differ(a, b, path=""):
         r, other = (a, "fresh") if isinstance(a, _Raised) else (b, "aged")
         return f"{path}: raises {r.type}({r.text}) only on the {'aged' if other == 'fresh' else 'fresh'} object"
     if isinstance(a, dict) and isinstance(b, dict):
-        if list(a.keys()) != list(b.keys()):
-            return f"{path}: keys {list(a.keys())} vs {list(b.keys())}"
+        if sorted(a.keys()) != sorted(b.keys()):  # insertion order is not part of any property
+            return f"{path}: keys {sorted(a.keys())} vs {sorted(b.keys())}"
         for k in a:
             d = differ(a[k], b[k], f"{path}.{k}")
             if d:
@@ -787,7 +795,108 @@ def _warm(obs, f, seed):
     observe(obs[0], f, P)
 
 
+BYSTANDER_STEPS = ("array-assign", "array-inplace", "update", "array-partial", "valid-assign", "valid-inplace", "valid-norm",
+                   "norm-set", "unit", "vdims", "mapping")
+
+
+def derive(f, how, case):
+    """an object derived from f by an operation that returns a new field"""
+    dims = _dims(f)
+    rng = np.random.default_rng(case["obs_seed"])
+    d = dims[int(rng.integers(0, len(dims)))]
+    if how == "neg":
+        return -f
+    if how == "mul":
+        return 2 * f
+    if how == "abs":
+        return abs(f)
+    if how == "real":
+        return f.real
+    if how == "conjugate":
+        return f.conjugate
+    if how == "component":
+        return getattr(f, f.vdims[0]) if f.vdims else None
+    if how == "diff":
+        return f.diff(d)
+    if how == "laplace":
+        return f.laplace
+    if how == "plane":
+        return f.sel(d) if len(dims) > 1 else None
+    if how == "box":
+        return f[f.mesh.region]
+    if how == "pad":
+        return f.pad({d: (0, 0)}, mode="constant")
+    if how == "resample":
+        return f.resample(tuple(int(i) for i in f.mesh.n))
+    if how == "rot-copy":
+        if len(dims) < 2 or (f.nvdim > 1 and not all(x in dict(f.vdim_mapping).values() for x in dims[:2])):
+            return None
+        return f.rotate90(dims[0], dims[1], k=4)
+    if how == "norm":
+        return f.norm
+    if how == "orientation":
+        return f.orientation if f.array.dtype.kind == "f" else None
+    if how == "stack":
+        return (getattr(f, f.vdims[0]) << getattr(f, f.vdims[-1])) if f.vdims else None
+    if how == "h5":
+        return _tmp_roundtrip(f, "h5")[0]
+    raise AssertionError(how)
+
+
+def check_bystander(case):
+    """in-place writes to a derived object (values, validity, norm, labels, mapping, unit) never change the object
+    it was derived from: its primary state is bit-identical afterwards and its observables equal a fresh object's"""
+    prop = case["prop"]
+    obs = OBS[prop]
+    subject = build_initial(case)
+    if any(step[1] for step in case["script"]):
+        _warm(obs, subject, case["obs_seed"])
+    s0 = primary_state(subject)
+    d = derive(subject, case["derive"], case)
+    if d is None:
+        raise Reject()
+    tag("derive:" + case["derive"])
+    applied = 0
+    for step in case["script"]:
+        if step[0] not in BYSTANDER_STEPS:
+            continue
+        if step[0] == "norm-set" and d.array.dtype.kind != "f":
+            continue
+        if d.nvdim != subject.nvdim and step[0] in ("array-assign", "array-inplace", "update", "array-partial", "vdims", "mapping"):
+            # written with data of the derived object's own shape
+            if step[0] in ("vdims", "mapping"):
+                continue
+        try:
+            t = apply_step(d, step, dict(case, dtype={"f": "float", "c": "complex", "i": "int"}.get(d.array.dtype.kind, "float")))
+        except (ValueError, TypeError):
+            continue  # the write itself is not the subject here
+        if t is not None:
+            applied += 1
+            tag("bystander-step:" + t)
+    if applied == 0:
+        raise Reject()
+    key = same_state(primary_state(subject), s0)
+    if key is not None:
+        raise Violation(f"bystander-changed:{key}", f"writing {[s_[0] for s_ in case['script']]} to an object derived by "
+                                                    f"'{case['derive']}' changed '{key}' of the object it was derived from")
+    fresh = build_fresh(s0)
+    if same_state(primary_state(fresh), s0) is not None:
+        raise Reject()
+    P = make_params(fresh, case["obs_seed"])
+    a = observe(obs[0], subject, P)
+    b = observe(obs[0], fresh, P)
+    for name in a:
+        add_evaluations(1)
+        dd = differ(a[name], b.get(name), name)
+        if dd:
+            raise Violation(f"bystander-differs:{dd.split(':')[0][:70]}",
+                            f"after writes to an object derived by '{case['derive']}', observable '{name}' of the "
+                            f"source differs from a fresh object - {dd}")
+
+
 def check_aged(case):
+    if case.get("derive"):
+        return check_bystander(case)
     prop = case["prop"]
     obs = OBS[prop]
     aged = build_initial(case)
